@@ -345,6 +345,19 @@ func (e *Enc) havocAll(s *state, escLocals map[string]bool) {
 func (e *Enc) havocEffects(s *state, eff *effSet, escLocals map[string]bool) {
 	if eff.all {
 		e.havocAll(s, escLocals)
+		// ghost state survives an unknown callee, but not a callee whose contract (or a contract below it) says it
+		// modifies that ghost variable
+		for _, r := range sortedKeys(eff.regs) {
+			if !strings.HasPrefix(r, "ghost:") {
+				continue
+			}
+			if _, ok := e.regionSort[r]; ok {
+				e.havocRegion(s, r)
+			} else {
+				e.nepoch++
+				s.stale[r] = e.nepoch
+			}
+		}
 		return
 	}
 	for _, r := range sortedKeys(eff.regs) {
@@ -568,10 +581,7 @@ func (p *Prog) effects(fn *ssa.Function, stack map[*ssa.Function]bool) *effSet {
 	}
 	for _, b := range fn.Blocks {
 		for _, ins := range b.Instrs {
-			p.instrEffects(ins, es, stack)
-			if es.all {
-				break
-			}
+			p.instrEffects(ins, es, stack) // keep scanning after `all`: ghost regions are not part of `all`
 		}
 	}
 	p.eff[fn] = es
